@@ -57,6 +57,16 @@ def sortDesc : CountMap → List (Nat × Nat)
 /-- `convertMapToSlice(m, max)` -/
 def topOf (m : CountMap) (max : Nat) : List (Nat × Nat) := (sortDesc m).take max
 
+/-- `m[k] += c` -/
+def CountMap.addN : CountMap → Nat → Nat → CountMap
+  | [], k, c => [(k, c)]
+  | (k', c') :: r, k, c => if k' = k then (k', c' + c) :: r else (k', c') :: CountMap.addN r k c
+
+/-- `topsCollector` before its final cut: `for u in units { for cp in pg(u) { m[cp.Name] += cp.Count } }`
+(no name ignored). -/
+def collectTops (lists : List (List (Nat × Nat))) : CountMap :=
+  lists.foldl (fun m ps => ps.foldl (fun m p => m.addN p.1 p.2) m) []
+
 /-- `maxDomains = maxClients = 100` -/
 def maxTop : Nat := 100
 
